@@ -159,6 +159,9 @@ impl<'a> Decoder<'a> {
         // decode all keys first
         for _ in 0..length {
             let jentry = jentries.pop_front().unwrap();
+            if jentry.type_code != STRING_TAG {
+                return Err(Error::InvalidJsonbJEntry);
+            }
             let key = self.decode_scalar(jentry)?;
             keys.push_back(key);
         }
